@@ -290,6 +290,14 @@ def w_e2e(job):
     return n, nontriv, fails, counts, outcomes
 
 
+
+def rejob(x):
+    """Re-execute one worker job (used by ./check --rejob for history-dependent failures)."""
+    def tup(v):
+        return tuple(tup(y) for y in v) if isinstance(v, list) else v
+    return globals()[x[0]](tup(x[1]))
+
+
 def _dispatch(job):
     fn, arg = job
     return fn(arg)
@@ -298,18 +306,21 @@ def _dispatch(job):
 def run(tier, seed):
     jobs = []
     total = 13 * 63 * 63
-    for lo in range(0, total, 2048):
-        jobs.append((w_interface, (lo, min(total, lo + 2048))))
+    for lo in range(0, total, 4096):
+        jobs.append((w_interface, (lo, min(total, lo + 4096))))
     te = 13 * 14 * 14
-    for lo in range(0, te, 40):
-        jobs.append((w_e2e, (lo, min(te, lo + 40))))
+    for lo in range(0, te, 80):
+        jobs.append((w_e2e, (lo, min(te, lo + 80))))
     rot = seed % len(jobs) if seed else 0
     jobs = jobs[rot:] + jobs[:rot]
     res = pool.pmap(_dispatch, jobs)
     n = nt = 0
     failures, counts, outcomes = [], {}, {}
     per = {}
-    for (fn, _), (a, b, fl, c, o) in zip(jobs, res):
+    for (fn, arg), (a, b, fl, c, o) in zip(jobs, res):
+        for _f in fl:
+            if isinstance(_f, dict) and "key" in _f:
+                _f.setdefault("job", {"fn": "nslmc.props.c09:rejob", "arg": [fn.__name__, arg]})
         n += a
         nt += b
         per[fn.__name__] = per.get(fn.__name__, 0) + a
